@@ -121,3 +121,23 @@ func StatsString(s *stack.Stack) string {
 	walk("", reflect.ValueOf(s.Stats()))
 	return out
 }
+
+// ReleaseStack lets a finished case's stack be collected: every IPv4 address
+// is removed (which ends the per-address echo replier goroutine that would
+// otherwise keep the stack alive) and the taps are released.
+func ReleaseStack(s *stack.Stack, taps ...*Tap) {
+	if s != nil {
+		for id, info := range s.NICInfo() {
+			for _, pa := range info.ProtocolAddresses {
+				if pa.Protocol == ipv4.ProtocolNumber {
+					s.RemoveAddress(id, pa.Address)
+				}
+			}
+		}
+	}
+	for _, t := range taps {
+		if t != nil {
+			t.Release()
+		}
+	}
+}
